@@ -3,3 +3,4 @@ CONSTANTS
   LEVEL = 1
 INVARIANT Inv
 CHECK_DEADLOCK FALSE
+PROPERTY SlowPeerKept
